@@ -1327,7 +1327,7 @@ fn op_operations(m: &mut M<'_>, s: &mut dyn Src) -> bool {
                 o.name = Some(Name::new("Op"));
                 m.op_name = Some("Op".into());
             }
-            second.name = Some(Name::new("Op"));
+            second.name = m.first_op().name.clone();
         }
         // an anonymous operation next to another one
         1 => {
@@ -1382,7 +1382,8 @@ fn v_second_operation(m: &mut M<'_>, s: &mut dyn Src) -> bool {
     if first.name.is_none() {
         first.name = Some(Name::new("Op"));
     }
-    m.op_name = Some("Op".into());
+    let first_name = first.name.as_ref().map(|n| n.s.clone());
+    m.op_name = first_name;
     let lf = plain_leaf_fields(sch, &sch.query);
     let sel = if lf.is_empty() { typename_sel() } else { SelSet::new(vec![Selection::Field(fld(&lf[s.choose(lf.len())].name, None))]) };
     let second = OpDef { pos: Pos::default(), explicit: true, kind: OpKind::Query, name: Some(Name::new("Other")), vars: vec![], directives: vec![], sel };
